@@ -16,7 +16,7 @@
    stored child. *)
 From Coq Require Import List NArith ZArith Bool Arith Lia.
 Import ListNotations.
-From NV Require Import Gen.ObjFmtConsts ObjFmt.Model ObjFmt.Spec ObjFmt.Proofs ObjFmt.SliceProofs ObjFmt.Check ObjFmt.RefProofs.
+From NV Require Import Gen.ObjFmtConsts ObjFmt.Model ObjFmt.Spec ObjFmt.Proofs ObjFmt.SliceProofs ObjFmt.Check ObjFmt.RefProofs ObjFmt.RefWitness.
 Local Open Scope N_scope.
 
 Section Statements.
@@ -135,6 +135,14 @@ Theorem C24_attr_loop_is_spec : forall attrs,
   check_attrs attrs = attrs_okb attrs /\ (attrs_okb attrs = true <-> attrs_ok attrs).
 Proof. intros attrs. split; [apply check_attrs_eq_okb | apply attrs_okb_spec]. Qed.
 
+(* the converse of C24_reference_is_spec fails (toy crypto of the check, H = identity): an object
+   whose signature declares an over-long key satisfies stored_ok, the executable reference refuses it *)
+Theorem C24_reference_converse_refuted :
+  exists e allow_all o pl,
+    stored_ok (H_of []) t_sig_ok t_key_ok t_user_of t_tok1_ok t_tok2_ok t_n3_ok e allow_all o pl /\
+    m_stored_okb [] e allow_all o pl = false.
+Proof. exists refw_env, false, refw_obj, [1;2;3]. exact ref_converse_witness. Qed.
+
 (* ---- non-vacuity -------------------------------------------------------------------------- *)
 (* the streaming premise is satisfiable: accumulate, then hash *)
 Lemma fold_app_concat : forall (chunks : list bytes) acc, fold_left (fun h p => h ++ p) chunks acc = acc ++ concat chunks.
@@ -196,3 +204,4 @@ Print Assumptions C24_slices_reassemble_partial.
 Print Assumptions C24_reference_is_spec.
 Print Assumptions C24_reference_complete_partial.
 Print Assumptions C24_attr_loop_is_spec.
+Print Assumptions C24_reference_converse_refuted.
